@@ -77,7 +77,7 @@ func opDistroless(r *hx.Run, o dlOut, dir string, f dlFile, nontrivial bool) {
 }
 
 func runDistroless(r *hx.Run, rnd *hx.Rand, cfg hx.Config) {
-	n := cfg.N(150, 5000)
+	n := cfg.N(150, 2000)
 	for i := 0; i < n && !r.Stop(); i++ {
 		dir := rnd.Pick("var/lib/dpkg/status.d", "var/lib/dpkg/status.d", "status.d", "opt/x/status.d")
 		k := rnd.Intn(6)
